@@ -212,7 +212,7 @@ class TdmsSegment(object):
         return metadata
 
     def raw_data_index(self, obj):
-        if hasattr(obj, 'data'):
+        if _has_data(obj):
             data_type = Int32(obj.data_type.enum_value)
             dimension = Uint32(1)
             num_values = Uint64(len(obj.data))
@@ -250,13 +250,13 @@ class TdmsSegment(object):
     def _data_size(self):
         data_size = 0
         for obj in self.objects:
-            if hasattr(obj, 'data'):
+            if _has_data(obj):
                 data_size += object_data_size(obj.data_type, obj.data)
         return data_size
 
     def _write_data(self, file):
         for obj in self.objects:
-            if hasattr(obj, 'data'):
+            if _has_data(obj):
                 write_data(file, obj)
 
 
@@ -352,6 +352,14 @@ class ChannelObject(TdmsObject):
         """The string representation of this channel's path
         """
         return str(ObjectPath(self.group, self.channel))
+
+
+def _has_data(obj):
+    """ Whether an object has raw data to write
+
+    Empty data without a known data type is written as an object without raw data
+    """
+    return hasattr(obj, 'data') and obj.data_type != Void
 
 
 def read_properties_dict(properties_dict):
